@@ -378,7 +378,8 @@ impl Iterator for Iter<'_> {
 
     #[inline(always)]
     fn size_hint(&self) -> (usize, Option<usize>) {
-        (self.seq.len(), Some(self.seq.len()))
+        let n = self.seq.len() - self.pos;
+        (n, Some(n))
     }
 }
 
